@@ -15,7 +15,8 @@ RULE = (
     "Exhaustive: every sequence of 0-4 rows (quick) / 0-5 rows (thorough) over 9 row symbols (k1 in {a,A}, k2 in {a,b} x v "
     "accepted or rejected by its field, plus a row with too few items) x key sets {k1; k1,k2; k2,k1} x both "
     "declaration orders of IsUnique and DistinctCount x the three error modes, the comparison 'k1 <op> n' rotating "
-    "through all 6 operators x n in 0..4. Hypothesis: CIDs with 2-3 Text/Choice/Integer fields, an IsUnique check "
+    "through all 6 operators x n in 0..4 with n written plainly or as a sum, product, difference or in brackets; "
+    "the same sweep over 8 row symbols whose key values may be empty (both key fields allowed to be empty). Hypothesis: CIDs with 2-3 Text/Choice/Integer fields, an IsUnique check "
     "over 1-3 key fields and 0-2 DistinctCount checks in either order, tables of up to 10 rows over pools of 2-3 "
     "values per key field, rows rejected for other reasons interleaved, three modes. Oracle: dictionary model "
     "(vlib/model_validio): a row is rejected by IsUnique iff an earlier row that reached the check and was not "
@@ -29,22 +30,26 @@ ASSUMPTIONS = [
     "key cells are texts for which text equality and value equality coincide",
 ]
 EXHAUSTIVE = True
-EXHAUSTIVE_SCOPE = "all row sequences up to length 4 (quick) / 5 (thorough) over 9 row symbols x 3 key sets x 2 orders x 3 modes"
+EXHAUSTIVE_SCOPE = ("all row sequences up to length 4 (quick) / 5 (thorough) over 9 row symbols, and over 8 row symbols with "
+                    "empty key values, x 3 key sets x 2 orders x 3 modes")
 
 _OPS = ("<", "<=", "==", "!=", ">=", ">")
 _SYMBOLS = [[k1, k2, v] for k1 in "aA" for k2 in "ab" for v in ("x", "z")] + [["a"]]
 
 
-def _small_spec(keys, op, n, count_first):
+_EMPTY_SYMBOLS = [[k1, k2, v] for k1 in ("", "a") for k2 in ("", "a") for v in ("x", "z")]
+
+
+def _small_spec(keys, op, n, count_first, style=0, empty=False):
     fmt = gen_fields.format_spec("delimited")
-    text = lambda name: {"name": name, "empty": False, "length": "", "length_items": None, "type": "Text",  # noqa: E731
+    text = lambda name: {"name": name, "empty": empty, "length": "", "length_items": None, "type": "Text",  # noqa: E731
                          "rule": "", "model": {}}
     fields = [text("k1"), text("k2"),
               {"name": "v", "empty": False, "length": "", "length_items": None, "type": "Choice", "rule": "x, y",
                "model": {"choices": ["x", "y"]}}]
     unique = {"desc": "keys are unique", "type": "IsUnique", "rule": ", ".join(keys), "keys": list(keys)}
-    count = {"desc": "count of k1", "type": "DistinctCount", "rule": "k1 %s %d" % (op, n), "field": "k1", "op": op,
-             "n": n}
+    count = {"desc": "count of k1", "type": "DistinctCount", "rule": "k1 %s %s" % (op, gen_tables.spell_count(n, style)),
+             "field": "k1", "op": op, "n": n}
     return {"fmt": fmt, "fields": fields, "checks": [count, unique] if count_first else [unique, count]}
 
 
@@ -125,22 +130,24 @@ def judge(sub, case, spec, rows, stored, source_factory, base_name, label):
 def _sweep_shard(args):
     from vlib.runner import Sub
 
-    index, count, max_len = args
+    index, count, max_len = args[:3]
+    empty = len(args) > 3 and args[3]
+    alphabet = _EMPTY_SYMBOLS if empty else _SYMBOLS
     sub = Sub("sweep")
     evals = nontrivial = number = 0
     classes = {}
     for length in range(0, max_len + 1):
-        for symbols in itertools.product(range(len(_SYMBOLS)), repeat=length):
+        for symbols in itertools.product(range(len(alphabet)), repeat=length):
             number += 1
             if number % count != index:
                 continue
-            rows = [list(_SYMBOLS[s]) for s in symbols]
+            rows = [list(alphabet[s]) for s in symbols]
             text = gen_tables.delimited_text(rows)
             for key_index, keys in enumerate((("k1",), ("k1", "k2"), ("k2", "k1"))):
                 for count_first in (False, True):
                     pick = (number * 7 + key_index * 3 + count_first) % 30
                     op, n = _OPS[pick % 6], pick // 6
-                    spec = _small_spec(keys, op, n, count_first)
+                    spec = _small_spec(keys, op, n, count_first, number + key_index, empty)
                     case = {"spec": spec, "rows": rows, "via": "stream"}
                     before = sub.evaluations
                     expected = judge(sub, case, spec, rows, rows, lambda mode: io.StringIO(text, newline=""), "<io>",
@@ -222,6 +229,8 @@ def run(ctx):
     max_len = ctx.n(4, 5)
     shards = ctx.workers * 2
     ctx.par(_sweep_shard, [(i, shards, max_len) for i in range(shards)])
+    # the same sweep over keys that may be empty (both key fields allowed to be empty; 8 row symbols)
+    ctx.par(_sweep_shard, [(i, shards, max_len, True) for i in range(shards)])
     ctx.hyp("generated", cases, check_case, ctx.n(1500, 40000))
 
 
